@@ -62,6 +62,15 @@ pub struct SyncSc {
     /// (`current -> releases/v1`): only the spelling of the root changes, the tree does not
     #[serde(default)]
     pub root_link: bool,
+    /// fault batch: every ssh child of the sync is killed (as by a signal: OOM killer, `pkill ssh`)
+    /// immediately before its nth operation
+    #[serde(default)]
+    pub kill_child: Option<u32>,
+    /// the first two files have identical bytes in the source (different mtimes) and are two
+    /// hard-linked names of ONE inode in the destination (as `cp -al` / rsnapshot leave them),
+    /// holding those very bytes with an older mtime
+    #[serde(default)]
+    pub hardlink_pair: bool,
 }
 
 pub const REMOTE_LINK: &str = "/data/current";
@@ -214,7 +223,21 @@ pub fn gen_sync(r: &mut Rng, allow_fail_inputs: bool) -> SyncSc {
         dst_exists: r.below(8) != 0,
         inject: None,
         root_link: false,
+        kill_child: None,
+        hardlink_pair: false,
     };
+    if sc.files.len() >= 2 && r.below(10) == 0 {
+        sc.hardlink_pair = true;
+        let (tag, size) = (sc.files[0].tag, sc.files[0].size.clamp(1, 5000));
+        sc.files[0].size = size;
+        sc.files[1].tag = tag;
+        sc.files[1].size = size;
+        sc.files[0].mtime_s = 1_650_000_000;
+        sc.files[1].mtime_s = 1_660_000_000;
+        sc.files[0].dst = DstState::DiffMtime;
+        sc.files[1].dst = DstState::DiffMtime;
+        sc.dst_exists = true;
+    }
     sc.root_link = root_link;
     sc
 }
@@ -276,6 +299,17 @@ pub fn build_world(sc: &SyncSc) -> World {
             w.host(dh).put_file(&format!("{DST_ROOT}/{p}"), &body(9000, *sz), t - 3_000_000_000);
         }
     }
+    if sc.hardlink_pair && sc.files.len() >= 2 && sc.dst_exists && sc.files[..2].iter().all(|f| f.dst == DstState::DiffMtime) {
+        let (f0, f1) = (&sc.files[0], &sc.files[1]);
+        let (d0, d1) = (format!("{DST_ROOT}/{}", f0.path), format!("{DST_ROOT}/{}", f1.path));
+        w.host(dh).remove_file(&d0);
+        w.host(dh).remove_file(&d1);
+        w.host(dh).put_file(&d0, &body(f0.tag, f0.size), ns(1_600_000_000, 0));
+        if let Some(i) = d1.rfind('/') {
+            w.host(dh).mkdir_p(&d1[..i], t);
+        }
+        let _ = w.host(dh).link("/", &d0, &d1, t);
+    }
     if link_in_use(sc) {
         let target = if sc.dir == 1 { DST_ROOT } else { SRC_ROOT };
         let _ = w.host(REMOTE).symlink("/", target, REMOTE_LINK, t);
@@ -320,6 +354,9 @@ pub fn run_cfg(sc: &SyncSc, salt: u64) -> RunCfg {
     if let Some((k, nth)) = sc.inject {
         let errno = [copia_simworld::fs::EIO, copia_simworld::fs::ENOSPC, copia_simworld::fs::EACCES][nth as usize % 3];
         cfg.faults.push(Fault::FailOp { target: ProcSel::Role("sync".into()), nth, kind: FAULT_KINDS[k as usize % FAULT_KINDS.len()], errno });
+    }
+    if let Some(nth) = sc.kill_child {
+        cfg.faults.push(Fault::KillAtOp { target: ProcSel::Role("sync>ssh".into()), nth, class: OpClass::Any });
     }
     cfg
 }
